@@ -245,6 +245,9 @@ class MeshTet1(MeshSimplex, Mesh3D):
         t = np.zeros((4, 8 * nt), dtype=np.int32)
         p[:, :nv] = self.p.copy()
         t[:, :nt] = self.t.copy()
+        # index of the original element each element descends from
+        orig = np.zeros(8 * nt, dtype=np.int32)
+        orig[:nt] = np.arange(nt, dtype=np.int32)
 
         nonconf = np.ones(8 * nv, dtype=np.int8)
         split_edge = np.zeros((3, 8 * nv), dtype=np.int32)
@@ -299,6 +302,7 @@ class MeshTet1(MeshSimplex, Mesh3D):
             # add new elements
             t[:, marked] = np.vstack((t3, t0, t2, tnew))
             t[:, nt:(nt + nm)] = np.vstack((t2, t1, t3, tnew))
+            orig[nt:(nt + nm)] = orig[marked]
             nt += nm
 
             check = np.nonzero(nonconf[:ns])[0].astype(np.int32)
@@ -317,10 +321,20 @@ class MeshTet1(MeshSimplex, Mesh3D):
             nonconf[check[i]] = 1
             marked = np.unique(j)
 
+        if self._subdomains is not None:
+            subdomains = {
+                name: np.nonzero(np.isin(orig[:nt], ixs))[0].astype(np.int32)
+                for name, ixs in self._subdomains.items()
+            }
+        else:
+            subdomains = None
+
         return replace(
             self,
             doflocs=p[:, :nv],
             t=t[:, :nt],
+            _boundaries=None,
+            _subdomains=subdomains,
         )
 
     @classmethod
